@@ -15,6 +15,7 @@ transforms:
   swapadj    adjacent independent call-free assignments swapped
   dropelse   else after a branch that always returns / raises removed (its body follows the if)
   extractvar keyword arguments that are calls / arithmetic computed into a temporary right before the statement
+  kw2pos     keyword arguments written positionally wherever the callee is a uniquely resolved project function
   addelse    the inverse: statements after such an if moved into an else
   rename     every purely local variable v of a function renamed v_r  (parameters, globals, closure variables untouched)
 """
@@ -292,10 +293,47 @@ class Combo(ast.NodeTransformer):
         return tree
 
 
-TRANSFORMS = {"flipcmp": FlipCmp, "commute": Commute, "retvar": RetVar, "kworder": KwOrder, "ifinvert": IfInvert, "rename": Rename, "combo": Combo, "swapadj": SwapAdj, "dropelse": DropElse, "addelse": AddElse, "extractvar": ExtractVar}
+TRANSFORMS = {"flipcmp": FlipCmp, "commute": Commute, "retvar": RetVar, "kworder": KwOrder, "ifinvert": IfInvert, "rename": Rename, "combo": Combo, "swapadj": SwapAdj, "dropelse": DropElse, "addelse": AddElse, "extractvar": ExtractVar, "kw2pos": None}
+
+
+def _kw2pos_sources():
+    """keyword arguments turned into positional ones wherever the callee resolves to exactly one project function and the keywords form a prefix of its remaining parameters"""
+    p = Project()
+    n = 0
+    for f in p.all_functions():
+        for c in f.calls():
+            tg = p.resolve_call(c, f)
+            if len(tg) != 1 or not c.keywords or any(k.arg is None for k in c.keywords) or any(isinstance(a, ast.Starred) for a in c.args):
+                continue
+            t = tg[0]
+            params = list(t.call_params)
+            if t.vararg or len(c.args) > len(params):
+                continue
+            rest = params[len(c.args):]
+            kws = {k.arg: k for k in c.keywords}
+            moved = []
+            for name in rest:
+                if name in kws and name not in t.kwonly:
+                    moved.append(kws[name])
+                else:
+                    break
+            if not moved:
+                continue
+            c.args = list(c.args) + [k.value for k in moved]
+            c.keywords = [k for k in c.keywords if k not in moved]
+            n += 1
+    out = {}
+    for m in p.modules.values():
+        if m.relpath.startswith("autoarray/plot") or "/util/nn/" in m.relpath:
+            continue
+        ast.fix_missing_locations(m.tree)
+        out[m.relpath] = ast.unparse(m.tree)
+    return out
 
 
 def transformed_sources(tname):
+    if tname == "kw2pos":
+        return _kw2pos_sources()
     out = {}
     for root, _, files in os.walk(os.path.join(REPO, "autoarray")):
         for fn in files:
